@@ -52,7 +52,7 @@ fn seqs(alpha: u16, maxlen: usize) -> Vec<Vec<u16>> {
     let mut cur: Vec<Vec<u16>> = vec![vec![]];
     for _ in 0..maxlen {
         let mut next = vec![];
-        for s in &cur { for c in 0..alpha { let mut t = s.clone(); t.push(c + 5); next.push(t); } }
+        for s in &cur { for c in 0..alpha { let mut t = s.clone(); t.push(if c == 0 { 0 } else { c + 4 }); /* alphabet {0 (EOI), 5, 6, ..} */ next.push(t); } }
         out.extend(next.iter().cloned());
         cur = next;
     }
